@@ -1,6 +1,6 @@
 (* C03 -- Line buffer operations are total, keep the cursor valid and report
    every change. Property theorems only. *)
-From RL Require Import UData Uax29 LineBuffer LineBufferOps LineBufferProofs LineBufferTotal LineBufferAll.
+From RL Require Import UData Uax29 LineBuffer LineBufferOps LineBufferProofs LineBufferTotal LineBufferAll InsertStrRefuted.
 
 (* EVERY operation of the line buffer, for every Unicode data, every
    segmentation function, every buffer/cursor/parameters: the insert / delete /
@@ -57,13 +57,24 @@ Print Assumptions C03_yank_capacity.
    unwrap of None: the model's Panic is unreachable) and the cursor is on a
    boundary again. Hypotheses on the segmentation: it is a partition into
    non-empty clusters. The five operations that take raw byte offsets carry the
-   precondition the crate states for them (op_pre: offsets on boundaries, ordered). *)
+   precondition of Rust's own String API (op_pre: offsets on boundaries, ordered) -- and, for insert_str, that the
+   offset is not before the cursor: without that premise the statement is false (C03_insert_str_before_cursor_refuted,
+   known finding K_insert_str_cursor). *)
 Theorem C03_all_total_wf : forall (seg : str -> list str),
   (forall s, concat (seg s) = s) -> (forall s g, In g (seg s) -> g <> []) ->
   forall (U : UData) (o : lbop) (b : lb),
   wf b -> op_pre o b -> exists a b' ev, lb_apply U seg o b = Ok (a, b', ev) /\ wf b'.
 Proof. exact lb_all_total_wf. Qed.
 Print Assumptions C03_all_total_wf.
+
+(* the premise on insert_str cannot be dropped: text inserted BEFORE the cursor leaves the byte cursor where it was --
+   inside the inserted character (the same witness panics the next operation of the real code: K_insert_str_cursor) *)
+Theorem C03_insert_str_before_cursor_refuted :
+  exists (b : lb) (i : nat) (s : str) (b' : lb) r ev,
+    wf b /\ bd (buf b) i /\ i < pos b
+    /\ insert_str i s b = Ok (r, b', ev) /\ ~ wf b'.
+Proof. exact insert_str_before_cursor_refuted. Qed.
+Print Assumptions C03_insert_str_before_cursor_refuted.
 
 (* ... in particular for the UAX #29 segmentation of the model itself: no hypothesis left *)
 Theorem C03_all_total_wf_useg : forall (U : UData) (o : lbop) (b : lb),
